@@ -40,6 +40,9 @@ import (
 //     radius, history-radius, error} x {r1,r2} from one table node, on the history, state and
 //     beacon networks: the cache holds the last radius reported in a supported type, gossip
 //     uses it, and the pong we send carries our store's radius and our ENR sequence number.
+// (3) the same bookkeeping for a node whose bucket is full (c20_repl.go): its first contact parks it
+//     in the bucket's replacement list, bucket entries are removed, it is promoted; (4) long-lived
+//     part (c20_long.go).
 
 func init() {
 	register(&Prop{ID: "C20", Level: "exploration", Run: runC20, Replay: replayC20,
@@ -56,7 +59,7 @@ func init() {
 var c20Expired atomic.Bool
 
 type c20Case struct {
-	Kind   string   `json:"kind"` // "select" | "radius"
+	Kind   string   `json:"kind"` // "select" | "radius" | "repl" (c20_repl.go) | "long" (c20_long.go)
 	N      int      `json:"n"`
 	Limit  int      `json:"limit"` // outbound transfer slots
 	Cid    int      `json:"cid"`
@@ -188,6 +191,7 @@ type c20Fix struct {
 	nodes []*enode.Node
 	d5    *discover.UDPv5
 	conn  *mconn
+	x     *enode.Node // replacement-list part: the reporting node (not one of nodes)
 }
 
 // newC20Fix must run inside a bubble: the table loop is started (gossip reads the
@@ -779,6 +783,36 @@ func c20RadiusOf(typ uint16, payload []byte) ([]byte, error) {
 	return nil, fmt.Errorf("payload type %d carries no radius", typ)
 }
 
+// c20JudgePong: the answer to a ping (step k of c.Seq) is a pong that carries our store's radius and
+// our current ENR sequence number in the type asked for, or an error payload for a type this
+// network does not support. false: a violation was reported.
+func c20JudgePong(r *mc.Report, f *c20Fix, c c20Case, k int, site string, typ uint16, carries bool, reply []byte) bool {
+	pong := &portalwire.Pong{}
+	if len(reply) == 0 || reply[0] != portalwire.PONG || pong.UnmarshalSSZ(reply[1:]) != nil {
+		r.Violation("ping-is-answered-with-a-pong", site, fmt.Sprintf("seq %v step %d: reply=%x", c.Seq, k, reply), c)
+		return false
+	}
+	switch {
+	case carries:
+		rb, derr := c20RadiusOf(typ, pong.Payload)
+		ok := derr == nil && pong.PayloadType == typ && pong.EnrSeq == f.bn.LN.Seq()
+		if ok { // byte order of the radius is C06's business
+			le, be := new(uint256.Int), new(uint256.Int).SetBytes(rb)
+			ok = le.UnmarshalSSZ(rb) == nil && (le.Eq(f.st.radius) || be.Eq(f.st.radius))
+		}
+		if !ok {
+			r.Violation("pong-carries-own-radius-and-enr-seq", site, fmt.Sprintf("seq %v step %d: pong type %d seq %d (ours %d) radius %x (store %s) decode err %v", c.Seq, k, pong.PayloadType, pong.EnrSeq, f.bn.LN.Seq(), rb, f.st.radius.Hex(), derr), c)
+			return false
+		}
+	case typ != pingext.Error:
+		if ep := (&pingext.ErrorPayload{}); pong.PayloadType != pingext.Error || ep.UnmarshalSSZ(pong.Payload) != nil {
+			r.Violation("unsupported-type-answered-with-error-payload", site, fmt.Sprintf("seq %v step %d: pong type %d payload %x", c.Seq, k, pong.PayloadType, pong.Payload), c)
+			return false
+		}
+	}
+	return true
+}
+
 func c20RunRadius(r *mc.Report, f *c20Fix, c c20Case) bool {
 	x := f.nodes[1]
 	cid, d := x.ID().Bytes(), c20D.Bytes32()
@@ -813,7 +847,6 @@ func c20RunRadius(r *mc.Report, f *c20Fix, c c20Case) bool {
 		}
 		f.st.radius = new(uint256.Int).AddUint64(new(uint256.Int).Lsh(uint256.NewInt(1), uint(250-k)), uint64(k+1))
 		var reply, cached []byte
-		var err error
 		var got []enode.ID
 		if msg, psite := panicsTo(func() {
 			if k > 0 { // our record changes between messages: the pong must carry the current sequence number
@@ -852,30 +885,8 @@ func c20RunRadius(r *mc.Report, f *c20Fix, c c20Case) bool {
 			r.Violation("no-panic", psite, msg, c)
 			return false
 		}
-		if dir == "ping" {
-			pong := &portalwire.Pong{}
-			if err != nil || len(reply) == 0 || reply[0] != portalwire.PONG || pong.UnmarshalSSZ(reply[1:]) != nil {
-				r.Violation("ping-is-answered-with-a-pong", site, fmt.Sprintf("seq %v step %d: err=%v reply=%x", c.Seq, k, err, reply), c)
-				return true
-			}
-			switch {
-			case carries:
-				rb, derr := c20RadiusOf(typ, pong.Payload)
-				ok := derr == nil && pong.PayloadType == typ && pong.EnrSeq == f.bn.LN.Seq()
-				if ok { // byte order of the radius is C06's business
-					le, be := new(uint256.Int), new(uint256.Int).SetBytes(rb)
-					ok = le.UnmarshalSSZ(rb) == nil && (le.Eq(f.st.radius) || be.Eq(f.st.radius))
-				}
-				if !ok {
-					r.Violation("pong-carries-own-radius-and-enr-seq", site, fmt.Sprintf("seq %v step %d: pong type %d seq %d (ours %d) radius %x (store %s) decode err %v", c.Seq, k, pong.PayloadType, pong.EnrSeq, f.bn.LN.Seq(), rb, f.st.radius.Hex(), derr), c)
-					return true
-				}
-			case typ != pingext.Error:
-				if ep := (&pingext.ErrorPayload{}); pong.PayloadType != pingext.Error || ep.UnmarshalSSZ(pong.Payload) != nil {
-					r.Violation("unsupported-type-answered-with-error-payload", site, fmt.Sprintf("seq %v step %d: pong type %d payload %x", c.Seq, k, pong.PayloadType, pong.Payload), c)
-					return true
-				}
-			}
+		if dir == "ping" && !c20JudgePong(r, f, c, k, site, typ, carries, reply) {
+			return true
 		}
 		switch dir {
 		case "ping", "pong": // either makes X a table node again (the fixture's buckets have room)
@@ -1013,16 +1024,18 @@ func c20Radius(r *mc.Report, e *Env, unit *int) {
 }
 
 func runC20(r *mc.Report, e *Env) {
-	r.Rule = "every case drives the real ping/pong processing and GossipAndReturnPeers of an unstarted node whose table loop runs in a bubble; selection cases count when gossip returned, distinct = distinct (table size, content id, source, eligible count, ranks of the chosen peers); radius cases count per 3-event sequence, distinct = distinct (network, per-step last radius and gossip size)"
+	r.Rule = "every case drives the real ping/pong processing and GossipAndReturnPeers of an unstarted node whose table loop runs in a bubble; selection cases count when gossip returned, distinct = distinct (table size, content id, source, eligible count, ranks of the chosen peers); radius cases count per 3-event sequence, distinct = distinct (network, per-step last radius and gossip size); replacement-list cases likewise, with the place of the reporting node (bucket entry / replacement list / outside) read from the real table after every step"
 	r.Assume("long-lived part: up to 1500 (thorough 6000) repeated identical reports per chain; histories in which peers sharing a cache ring change their radius hundreds of times are outside the bound (the radius cache is lossy by construction)")
 	r.Assume("table sizes {0,1,3,4,5,8,9,12,33,40} of 272; radius assignments exhaustive up to 8 nodes (thorough: 9), banded patterns above; shuffles exhaustive up to 9 nodes, five structured draw patterns above")
 	r.Assume("keys and contents have equal length >= 1 (callers' contract); a full offer queue is C16's subject; a record refresh triggered by a higher sequence number goes out on a wire that loses everything (it is attempted and times out)")
+	r.Assume("replacement-list part: one full bucket (16 entries) plus two nodes elsewhere, none of which ever reports; the reporting node is the only one parked in the replacement list, so it is the one promoted when an entry of its bucket is removed (by deletion or FINDNODES failures; removal after failed revalidation ends in the same table operation and is not driven); sequences of 3 events (thorough: also 4 without the newer-record messages)")
 	defer time.AfterFunc(time.Until(e.Deadline), func() { c20Expired.Store(true) }).Stop()
 	r.Set("bound", map[string]any{"table_sizes": c20Sizes, "all_radius_assignments_up_to_nodes": map[bool]int{false: 8, true: 9}[e.Thorough()], "all_shuffles_up_to_nodes": 9,
 		"content_ids": map[bool]int{false: 3, true: 6}[e.Thorough()], "ping_pong_sequence_length": map[bool]int{false: 3, true: 4}[e.Thorough()]})
 	unit := 0
 	c20Select(r, e, &unit)
 	c20Radius(r, e, &unit)
+	c20Repl(r, e, &unit)
 	c20Long(r, e, &unit)
 }
 
@@ -1038,6 +1051,17 @@ func replayC20(r *mc.Report, e *Env, raw json.RawMessage) {
 		return
 	}
 	if msg := inBubble(func() {
+		if c.Kind == "repl" {
+			c20ReplDebug = true
+			f := newC20ReplFix(c.Proto)
+			if !f.replReset() {
+				r.EngineError("C20 replacement-list part: the fixture could not be set up")
+			} else {
+				c20RunRepl(r, f, c)
+			}
+			f.close()
+			return
+		}
 		if c.Kind == "radius" {
 			f := newC20Fix(c.Proto, c.N, c.Limit)
 			c20RunRadius(r, f, c)
